@@ -269,8 +269,9 @@ phase markers alone:
     commit a block it had not committed before, and must do so within 3·k views of the highest
     view a member was in at the marker.
   `mark fault-free chain=<k>` … `mark end`: all replicas live and synchronous from the start: no
-    view may end by timeout, and at the end every replica's committed block trails its highest
-    certified block by exactly k-1 views (so trails the newest proposal by k).
+    view may end by timeout, and whenever a replica votes for the block of view v it commits, in the
+    same step, the block of view v-k (commits trail the newest block by exactly k; the run never
+    quiesces, so this is judged per step).
 Fast-HotStuff failures carry their own signatures (`fhs-…`): a recorded known finding. -/
 structure LiveOr where
   fast : Bool := false
@@ -317,12 +318,9 @@ def liveOracleStep (o : LiveOr) (toks : List String) : LiveOr × String :=
       else if o.view.any (fun p => p.2 ≤ o.chain + 1) || o.view.isEmpty then
         (o', s!"fail {pre}fault-free-stall a fault-free synchronous run did not get past view {o.chain + 1}: views {natList (o.view.map (·.2))}")
       else
-        match o.view.find? (fun p => p.2 > o.chain + 1 && (o.comView.lookup p.1).getD 0 + (o.chain - 1) != (o.hqc.lookup p.1).getD 0) with
-        | some p => (o', s!"fail {pre}fault-free-gap replica {p.1}: view {p.2}, highest certified view {(o.hqc.lookup p.1).getD 0}, committed view {(o.comView.lookup p.1).getD 0}, chain length {o.chain}")
-        | none =>
-          match o.view.find? (fun p => p.2 > 1 && (o.hqc.lookup p.1).getD 0 + 1 != p.2) with
-          | some p => (o', s!"fail {pre}fault-free-uncertified replica {p.1} is in view {p.2} but its highest certified block has view {(o.hqc.lookup p.1).getD 0}")
-          | none => (o', "pass")
+        match o.view.find? (fun p => p.2 > 1 && (o.hqc.lookup p.1).getD 0 + 1 != p.2) with
+        | some p => (o', s!"fail {pre}fault-free-uncertified replica {p.1} is in view {p.2} but its highest certified block has view {(o.hqc.lookup p.1).getD 0}")
+        | none => (o', "pass")
     else (o', "pass")
   | kind :: rest =>
     let node : Option Nat :=
@@ -346,6 +344,23 @@ def liveOracleStep (o : LiveOr) (toks : List String) : LiveOr × String :=
                          commits := setNat i ((o.commits.lookup i).getD 0 + nCommits) o.commits,
                          comView := match lastCom with | some b => setNat i ((blocks.lookup b).getD 0) o.comView | none => o.comView,
                          timeouts := o.timeouts + (if o.phase == "fault-free" then tmo else 0) }
+      -- fault-free runs: whenever a replica votes for the block of view v (> chain length) it commits, in
+      -- the same step, the block of view v - chain length: commits trail the newest block by exactly that
+      -- (the run never quiesces, so this is judged per step, not on an end state)
+      let trail : Option String :=
+        if o1.phase != "fault-free" then none else
+        (splitOn "||" rhs).findSome? fun part =>
+          let pe := part.filter (· != ";")
+          match (pe.filterMap fun t => stripParen "sign(blk:" t).getLast? with
+          | none => none
+          | some x =>
+            let v := (blocks.lookup x).getD 0
+            if v ≤ o1.chain then none else
+            match (commitsOf pe).getLast? with
+            | none => some s!"replica {i} voted for {x} (view {v}) without committing the block of view {v - o1.chain}"
+            | some y => if (blocks.lookup y).getD 0 + o1.chain == v then none
+                        else some s!"replica {i} voted for {x} (view {v}) and committed {y} (view {(blocks.lookup y).getD 0}) instead of the block of view {v - o1.chain}"
+      if let some m := trail then (o1, (if o1.fast then "fail fhs-fault-free-trail " else "fail fault-free-trail ") ++ m) else
       if o1.phase == "sync" && o1.members.contains i && nCommits > 0 && (o1.firstNew.lookup i).isNone then
         let top := o1.members.foldl (fun m j => max m ((o1.view.lookup j).getD 0)) 0
         ({ o1 with firstNew := (i, top) :: o1.firstNew }, "pass")
